@@ -142,6 +142,29 @@ def run(shard, rec, rng):
         else:
             for _ in range(400 // len(BASES) + 1):
                 sj(base, tuple(rng.choice(ATOMS) for _ in range(3)))
+    # ---- configuration: the working directory of the process.  Containment is a statement about strings; it holds the
+    # same from "/" (daemons, containers), from a deep directory, and for components that spell out the working directory.
+    if idx % 4 == 0:
+        cwd0 = os.getcwd()
+        deep = tempfile.mkdtemp(prefix="c14-cwd-")
+        try:
+            os.makedirs(os.path.join(deep, "rel", "dir"))
+            for cwd in ("/", deep, os.path.join(deep, "rel")):
+                os.chdir(cwd)
+                rec.observe("safe_join_working_directories")
+                climbs = [c for c in comps1 if c.startswith("..") and "\x00" not in c][:: 3 if shard["_tier"] == "quick" else 1]
+                climbs += ["../../outside.txt", "../../../outside.txt", "../.." + cwd.rstrip("/") + "/outside.txt", "../../.." + cwd.rstrip("/") + "/rel/dir/../../outside.txt",
+                           "../../.." + cwd.rstrip("/") + "/../outside.txt", ".." + cwd, "../" * 12 + cwd.lstrip("/")]
+                for base in ("", ".", "rel/dir", "./x/", "rel", "/srv/root", "/"):
+                    for first in ("docs", "a", "sub", "..a", ".", "", "a/b", "rel"):
+                        for second in climbs:
+                            sj(base, (first, second))
+                            sj(base, (first, "x", second))
+        finally:
+            os.chdir(cwd0)
+            import shutil as _sh
+
+            _sh.rmtree(deep, ignore_errors=True)
     # ---- end to end over a real tree
     top = tempfile.mkdtemp(prefix="c14-")
     try:
